@@ -188,7 +188,10 @@ def oracle_normalised(n, v, tab, values=None, value_each=None):
                 if abs(x) > ztol:
                     fails.append((i, f"additive game: {col} value should be 0", x))
         return fails, "additive"
-    if all_zero and abs(float(s)) <= 1e-9 * M:
+    # a surplus the library cannot tell from 0 may be treated as additive: for float inputs that is its own rtol = 1e-9 of the
+    # largest value; for exactly representable inputs only the rounding of the n sequential subtractions (a few ulps of it)
+    exact_inputs = all(not isinstance(x, float) for x in v)
+    if all_zero and abs(float(s)) <= (1e-9 * M if not exact_inputs else 16 * n * 2.220446049250313e-16 * M):
         return [], "additive-within-library-rtol"
     for col, x in (("lower", lo), ("upper", hi)):
         for i in range(n):
@@ -331,6 +334,12 @@ def icg_cases(ctx):
                       + bonus * (games.popcount(c_) * (games.popcount(c_) - 1) // 2) for c_ in range(2 ** n)]
                 if all(int(float(x)) == x for x in hs):
                     add(n, hs, "huge-spread-int", "exact")
+                # the same with ODD small singletons (their plain sum with 2^53 is not representable, every table value is)
+                singles = [2 ** 53] + [1] * (n - 1)
+                hs = [0] + [sum(singles[i] for i in range(n) if (c_ >> i) & 1) + bonus * (games.popcount(c_) * (games.popcount(c_) - 1) // 2)
+                            + games.popcount(c_) - 1 for c_ in range(1, 2 ** n)]
+                if all(int(float(x)) == x for x in hs) and games.is_sa(hs, n):
+                    add(n, hs, "huge-spread-int-odd", "exact")
     # float stream: harness generators
     for n in ([3, 4, 5] if q else [2, 3, 4, 5, 6]):
         reps = 6 if q else 80
@@ -546,7 +555,9 @@ def run_icg(ctx, cases):
         # ---- correspondence
         detail = None
         # norm info
-        if not cmp_q(impl["s"], m_s, exact, 1e-9, M):
+        # the REPORTED surplus is v(N) - (sum of the singleton values): that one sum need not be representable even when every
+        # table value is (huge-spread-int-odd); there it is compared to float rounding of the values' magnitude
+        if not cmp_q(impl["s"], m_s, exact and c["src"] != "huge-spread-int-odd", 1e-9, M):
             detail = f"norm info surplus impl={impl['s']!r} model={float(m_s)!r}"
         elif any(frac(a) != b for a, b in zip(impl["sv"], m_sv)) or len(impl["sv"]) != n:
             detail = f"norm info singleton values impl={impl['sv']} model={[float(x) for x in m_sv]}"
